@@ -102,7 +102,7 @@ impl Report {
             }
         }
         if new_v > 20 {
-            let all: Vec<String> = viol.keys().map(|k| crate::util::show(k)).collect();
+            let all: Vec<String> = viol.iter().map(|(k, v)| format!("{}\t{}", crate::util::show(k), v.what.replace('\n', " "))).collect();
             std::fs::write(format!("{VERIF}/replays/{}-all-keys.txt", self.prop), all.join("\n") + "\n").ok();
             println!("... and {} more distinct minimised violations of {} (not printed; fix the first ones and re-run)", new_v - 20, self.prop);
         }
